@@ -27,10 +27,11 @@ def classify(finding, case):
 
 
 def has_xmlns_attr(t):
-    """an attribute with local name 'xmlns' in no namespace, or any attribute in the xmlns namespace"""
+    """an attribute with local name 'xmlns' (set without namespace; delb may present it in the element's default
+    namespace), or any attribute in the xmlns namespace"""
     if t[0] != "tag":
         return False
-    return any((a[0] == "" and a[1] == "xmlns") or a[0] == "http://www.w3.org/2000/xmlns/" for a in t[3]) \
+    return any(a[1] == "xmlns" or a[0] == "http://www.w3.org/2000/xmlns/" for a in t[3]) \
         or any(has_xmlns_attr(c) for c in t[4])
 
 
